@@ -31,6 +31,9 @@ pub fn def() -> PropertyDef {
 pub struct Case {
     pub base: EngineCase,
     pub volume_db: f64,
+    /// set the volume first, then re-read the voice defaults (Condition::load_model) and re-apply
+    /// the rest of the condition: the volume must survive
+    pub before_reload: bool,
 }
 
 pub struct VolumeGain;
@@ -58,7 +61,7 @@ impl Prop for VolumeGain {
             2 => *t.pick(&[-60.0, 60.0, 20.0, -20.0, 6.0]),
             _ => t.uniform(-1e-3, 1e-3),
         };
-        Case { base, volume_db }
+        Case { base, volume_db, before_reload: t.chance(0.2) }
     }
     fn check(&self, c: &Case) -> Result<Report, Failure> {
         let (mut engine, _info) = build_engine(&c.base.voice)?;
@@ -76,6 +79,17 @@ impl Prop for VolumeGain {
         let y0 = g0.generate_all();
         let mut loud = engine.clone();
         loud.condition.set_volume(c.volume_db);
+        if c.before_reload {
+            // the volume is a setting of the caller, not of the voice: re-reading the voice's
+            // defaults (as after swapping the voice set) resets the voice-derived values only
+            let vs = loud.voices.clone();
+            if let Err(e) = loud.condition.load_model(&vs) {
+                fail!("load-model", "Condition::load_model failed on the engine's own voices: {}", e);
+            }
+            c.base.cond.apply_opts(&mut loud, false);
+            // interpolation weights of voice sets are reset by the reload: restore them
+            *loud.condition.get_interporation_weight_mut() = engine.condition.get_interporation_weight().clone();
+        }
         let got = loud.condition.get_volume();
         ensure!((got - c.volume_db).abs() <= 1e-9, "volume-roundtrip", "get_volume() = {} after set_volume({})", got, c.volume_db);
         let g1 = match catch(|| loud.generator(lines)) {
@@ -139,6 +153,7 @@ impl Prop for VolumeGain {
         }
         rep.nontrivial = c.volume_db != 0.0 && !y0.is_empty();
         rep.class(c.base.voice.class());
+        rep.class_if(c.before_reload, "volume-set-before-reloading-the-voice-defaults");
         rep.class_if(y0.iter().any(|x| !x.is_finite()), "runaway-nonfinite");
         Ok(rep)
     }
